@@ -164,7 +164,16 @@ def classify_method_extraction(src, start, end, new_src, new_name="extracted_q")
                                 isinstance(x, ast.Name) and (x.lineno, x.col_offset) == (mentions[0][0], mentions[0][1]) for tg in t.targets for x in ast.walk(tg)):
                             if any(isinstance(x, ast.Name) and x.id == v for x in ast.walk(t.value)):
                                 first_is_read = True
-                ak = "loop-carried-read-in-region-before-the-write" if first_is_read else "loop-carried-read-in-region-after-the-write"
+                region_ids = {id(x) for st in region for x in ast.walk(st)}
+                read_elsewhere = any(n_ == v and id(node) not in region_ids for n_, node in _names([loop], (ast.Load,)))
+                if first_is_read:
+                    ak = "loop-carried-read-in-region-before-the-write"
+                elif read_elsewhere:
+                    # the reads in the region come after its own write; the value that is carried to the next
+                    # iteration is the one read outside the region
+                    ak = "loop-carried-read-elsewhere-in-loop"
+                else:
+                    ak = "loop-carried-read-in-region-after-the-write"
         if first and first.endswith("store-only"):
             continue
         comp = any(isinstance(n, ast.comprehension) and any(isinstance(t, ast.Name) and t.id == v for t in ast.walk(n.target))
